@@ -201,6 +201,13 @@ def _get_region_params(region, shape_template, precision=8):
         elif isinstance(value, Quantity):
             # [:-4] to trim ' deg' from string end
             value = value.to_string(unit='deg', precision=precision)[:-4]
+            # values below 1e-4 are printed in exponent notation and can
+            # round up to 1.0e-04, which is printed differently (and with
+            # fewer digits) once read back; print it that way at once
+            reread = Quantity(float(value), 'deg').to_string(
+                precision=precision)[:-4]
+            if reread != value:
+                value = reread
 
         else:
             value = f'{value:.{precision}f}'
